@@ -201,6 +201,10 @@ func runCheck(prop, tier string, o opts) int {
 	}
 	seed, _ := strconv.Atoi(os.Getenv("VERIF_SEED"))
 	workDir := filepath.Join(o.verif, "work", prop+"-"+tier)
+	if d := os.Getenv("VERIF_EVIDENCE_DIR"); d != "" {
+		// a run against a scratch copy: keep its scratch files apart as well
+		workDir = filepath.Join(o.verif, "work", "alt-"+filepath.Base(o.repo)+"-"+prop+"-"+tier)
+	}
 	os.RemoveAll(workDir)
 	if err := os.MkdirAll(workDir, 0o755); err != nil {
 		fmt.Println("cannot create work dir:", err)
